@@ -11,12 +11,11 @@
    lang.Repr(float64) / encoding/json float encoder  [rf] (concrete: [rf_go] = [fmt_f] / [fmt_j])
    buildFieldsInfo, buildNamedFieldInfo,
      buildAnonymousFieldInfo, addOrMergeFields,
-     mergeFields (conflict detection)                [info_c], [info_named], [info_any],
+     mergeFields (conflict detection)                [info_fields], [info_named], [info_any],
                                                      [add_or_merge], [merge_fields]
    toLowerCaseKeyMap / toLowerCaseInterface          [lc_obj] / [lc_val]
    mapping.UnmarshalJsonMap(.., WithCanonicalKeyFunc(toLowerCase))
-                                                     [um_c ccfg (lower_c T)] (C08's [um_fields] per field,
-                                                     embedded structs flattened as processAnonymousFieldRequired does)
+                                                     C08's [unmarshal fixed ccfg (lower_fields T)]
    LoadFromJsonBytes                                 [conf_load]
    Load(file, UseEnv()) = os.ExpandEnv on the text   [expand] on the string leaves ([expand_doc])
    encoding/json.Unmarshal (reference decoder)       [std_val] / [std_fields] / [std_c]
@@ -43,6 +42,8 @@ Inductive doc :=
 | DStr (s : string)
 | DList (l : docs)
 | DMap (m : dmap)
+| DNilArr      (* not a document value: Go's nil []any, which toLowerCaseInterface makes of an empty
+                  array (see [lc_val]); only produced by [lc_doc] in Hyps.v *)
 with docs := DLnil | DLcons (d : doc) (l : docs)
 with dmap := DMnil | DMcons (k : string) (d : doc) (m : dmap).
 
@@ -134,6 +135,7 @@ Fixpoint shape (f : fmt) (d : doc) : jv :=
   | DStr s => JStr s
   | DList l => JArr (shape_list f l)
   | DMap m => JObj (shape_map f m)
+  | DNilArr => JArr [JNull]
   end
 with shape_list (f : fmt) (l : docs) : list jv :=
   match l with DLnil => [] | DLcons d r => shape f d :: shape_list f r end
@@ -154,7 +156,7 @@ Definition int64_ok (z : Z) : bool := (- 2 ^ 63 <=? z) && (z <? 2 ^ 63).
 (* no null (TOML has none), integers in TOML's int64, object keys distinct *)
 Fixpoint rep (d : doc) : bool :=
   match d with
-  | DNull => false
+  | DNull | DNilArr => false
   | DInt z => int64_ok z
   | DList l => rep_list l
   | DMap m => nodupb (dkeys m) && rep_map m
@@ -228,27 +230,29 @@ with info_fields (fs : fields) (acc : finfo) : option finfo :=
   | FNil => Some acc
   | FCons key _ t rest =>
     obnd (info_named t) (fun fi => obnd (add_or_merge acc (lower key) fi) (fun acc' => info_fields rest acc'))
+  | FEmbed _ _ inner rest =>
+    (* buildAnonymousFieldInfo: the members' infos are merged into the enclosing struct's *)
+    obnd (info_fields inner fi_empty)
+         (fun si => obnd ((fix add_all (acc : finfo) (l : list (string * finfo)) : option finfo :=
+                             match l with
+                             | [] => Some acc
+                             | (k, v) :: r => obnd (add_or_merge acc k v) (fun acc' => add_all acc' r)
+                             end) acc (fi_children si))
+                         (fun acc' => info_fields rest acc'))
   end.
 
-(* the top-level configuration struct: named fields and embedded (anonymous) structs *)
+(* a struct with NAME-TAGGED embedded fields, for the comparison with encoding/json only
+   (mapping and conf ignore the name of an anonymous struct field): named fields and embedded (anonymous) structs *)
 Inductive cfields :=
 | CNil
 | CNamed (key : string) (o : option fopts) (t : ftype) (rest : cfields)
 | CEmbed (tag : option string) (sub : cfields) (rest : cfields).   (* non-optional anonymous struct field *)
 
-Fixpoint add_all (acc : finfo) (l : list (string * finfo)) : option finfo :=
-  match l with
-  | [] => Some acc
-  | (k, v) :: r => obnd (add_or_merge acc k v) (fun acc' => add_all acc' r)
-  end.
-
-Fixpoint info_c (T : cfields) (acc : finfo) : option finfo :=
+Fixpoint fields_of_c (T : cfields) : fields :=
   match T with
-  | CNil => Some acc
-  | CNamed key _ t rest =>
-    obnd (info_named t) (fun fi => obnd (add_or_merge acc (lower key) fi) (fun acc' => info_c rest acc'))
-  | CEmbed _ sub rest =>
-    obnd (info_c sub fi_empty) (fun si => obnd (add_all acc (fi_children si)) (fun acc' => info_c rest acc'))
+  | CNil => FNil
+  | CNamed k o t r => FCons k o t (fields_of_c r)
+  | CEmbed _ sub r => FEmbed false false (fields_of_c sub) (fields_of_c r)
   end.
 
 (* ------------------------------------------------------------------ conf: key lower-casing *)
@@ -323,54 +327,29 @@ with lower_fields (fs : fields) : fields :=
   match fs with
   | FNil => FNil
   | FCons key o t rest => FCons (lower key) (lower_opts o) (lower_type t) (lower_fields rest)
+  | FEmbed opt ptr inner rest => FEmbed opt ptr (lower_fields inner) (lower_fields rest)
   end.
 
-Fixpoint lower_c (T : cfields) : cfields :=
-  match T with
-  | CNil => CNil
-  | CNamed key o t rest => CNamed (lower key) (lower_opts o) (lower_type t) (lower_c rest)
-  | CEmbed tag sub rest => CEmbed tag (lower_c sub) (lower_c rest)
-  end.
-
-(* ------------------------------------------------------------------ unmarshalling a struct with embedded fields *)
-
-(* processField over the fields of the struct; an anonymous struct field reads its own
-   fields from the SAME object (processAnonymousFieldRequired), whatever its tag says *)
-Fixpoint um_c (cfg : ucfg) (T : cfields) (obj : list (string * jv)) : result (list gval) :=
-  match T with
-  | CNil => Ok []
-  | CNamed key o t rest =>
-    xs <- um_fields fixed cfg (FCons key o t FNil) obj ;;
-    ys <- um_c cfg rest obj ;;
-    Ok (xs ++ ys)
-  | CEmbed _ sub rest =>
-    xs <- um_c cfg sub obj ;;
-    ys <- um_c cfg rest obj ;;
-    Ok (VStruct xs :: ys)
-  end.
+(* ------------------------------------------------------------------ loading *)
 
 Definition jcfg : ucfg := mkCfg false false false.     (* mapping.UnmarshalJsonBytes *)
 Definition ccfg : ucfg := mkCfg false false true.      (* conf: WithCanonicalKeyFunc(toLowerCase) *)
 
 (* mapping.UnmarshalJsonBytes into a struct with embedded fields *)
-Definition um_top (T : cfields) (d : option jv) : result gval :=
-  match d with
-  | Some (JObj o) => rmap VStruct (um_c jcfg T o)
-  | _ => Err EDoc
-  end.
+Definition um_top (T : cfields) (d : option jv) : result gval := unmarshal fixed jcfg (fields_of_c T) d.
 
 (* conf.LoadFromJsonBytes on a decoded document ([None]: the decoder rejected the text) *)
-Definition conf_load (T : cfields) (j : option jv) : result gval :=
-  match info_c T fi_empty with
+Definition conf_load (T : fields) (j : option jv) : result gval :=
+  match info_fields T fi_empty with
   | None => Err ETag                            (* conflict key ..., pay attention to anonymous fields *)
   | Some info =>
     match j with
-    | Some (JObj o) => rmap VStruct (um_c ccfg (lower_c T) (lc_obj info o))
+    | Some (JObj o) => unmarshal fixed ccfg (lower_fields T) (Some (JObj (lc_obj info o)))
     | _ => Err EDoc
     end
   end.
 
-Definition load_doc (rf : fmt -> string -> string) (T : cfields) (f : fmt) (d : doc) : result gval :=
+Definition load_doc (rf : fmt -> string -> string) (T : fields) (f : fmt) (d : doc) : result gval :=
   conf_load T (Some (shape rf f d)).
 
 (* ------------------------------------------------------------------ environment expansion *)
@@ -437,14 +416,18 @@ with expand_map env (m : dmap) : dmap :=
   match m with DMnil => DMnil | DMcons k d r => DMcons k (expand_doc env d) (expand_map env r) end.
 
 (* conf.Load(file, opts...) on the document: the text is expanded only with conf.UseEnv() *)
-Definition load_file (rf : fmt -> string -> string) (T : cfields) (f : fmt) (use_env : bool)
+Definition load_file (rf : fmt -> string -> string) (T : fields) (f : fmt) (use_env : bool)
            (env : list (string * string)) (d : doc) : result gval :=
   load_doc rf T f (if use_env then expand_doc env d else d).
 
 (* ------------------------------------------------------------------ reference decoder: encoding/json *)
 
 Fixpoint field_keys (fs : fields) : list string :=
-  match fs with FNil => [] | FCons k _ _ r => k :: field_keys r end.
+  match fs with
+  | FNil => []
+  | FCons k _ _ r => k :: field_keys r
+  | FEmbed _ _ inner r => field_keys inner ++ field_keys r      (* promoted fields *)
+  end.
 
 (* which field a document key addresses: the exactly named one, else (when no field has
    exactly that name) the one equal under case folding *)
@@ -497,6 +480,16 @@ with std_fields (fs : fields) (keys : list string) (o : list (string * jv)) {str
     x <- match std_pick keys key o None with None => Ok (zero t) | Some v => std_val t v end ;;
     xs <- std_fields rest keys o ;;
     Ok (x :: xs)
+  | FEmbed _ ptr inner rest =>
+    (* an untagged embedded struct: its fields are promoted (no shadowing is modelled: valid when
+       the promoted names are distinct); an embedded pointer is allocated as soon as a key
+       addresses one of the members *)
+    x <- std_fields inner keys o ;;
+    xs <- std_fields rest keys o ;;
+    Ok ((if ptr
+         then if existsb (fun kv => existsb (fun fk => fold_match keys fk (fst kv)) (field_keys inner)) o
+              then VPtr (VStruct x) else VNil
+         else VStruct x) :: xs)
   end.
 
 Definition stdjson_decode (fs : fields) (d : option jv) : result gval :=
@@ -546,5 +539,3 @@ Definition std_top (T : cfields) (d : option jv) : result gval :=
   | _ => Err EDoc
   end.
 
-Fixpoint c_of_fields (fs : fields) : cfields :=
-  match fs with FNil => CNil | FCons k o t r => CNamed k o t (c_of_fields r) end.
